@@ -69,12 +69,12 @@ def run(ctx):
         pass
     ctx.assumptions += [
         "calling convention of the kernel-facing servers: descriptors are closed once by their holder, read/write only through a descriptor with that access, Unlink only while linked",
-        "pool file and CAS are harness fakes (in-memory sparse file; Put reads the buffer in two halves); digests are SHA-256 over contents of at most 6 bytes",
+        "pool file and CAS are harness fakes (in-memory sparse file; Put reads the buffer in two halves); digests are SHA-256 or MD5 (the function asked for varies per call) over contents of at most 6 bytes",
         "interleavings are explored where the real code gives up its lock (wait for writers, wait for unfreeze, CAS transfer), one call per step; races inside a single critical section are left to the mutex",
     ]
     return vlib.finish(
         ctx,
-        rule="TLC explores the design model (reference counting, freeze/unfreeze, bounded wait for writers, cached digest, two-half CAS transfer) for every interleaving of 2 client threads and 2 uploaders and checks C16_Refs/CloseOnce/Stale/Digest/NoLostWakeup (+ BoundedWait under fairness). The real NewPoolBackedFileAllocator behind the real FUSE and NFS stateful handle allocators - driven directly, and through builder.NewVirtualBuildDirectory(InMemoryPrepopulatedDirectory).InstallHooks/UploadFile as the worker does - runs over an instrumented pool and a gated fake CAS: scripted races, seeded random histories, an exhaustive enumeration of short histories, and calls resuming on a released file (testing/synctest, one call per step, watchdog for spinning calls). TLC validates every line: number of Close() calls on the pool file vs. links+descriptors+frozen readers at every return and quiescent point, no touch of released storage, status of calls on released/live files, reported digest = SHA-256 of the bytes the CAS received = a content the file had during the upload, stat digests = present contents, link counts, waits only while their condition holds.",
+        rule="TLC explores the design model (reference counting, freeze/unfreeze, bounded wait for writers, cached digest, two-half CAS transfer) for every interleaving of 2 client threads and 2 uploaders and checks C16_Refs/CloseOnce/Stale/Digest/NoLostWakeup (+ BoundedWait under fairness). The real NewPoolBackedFileAllocator behind the real FUSE and NFS stateful handle allocators - driven directly, and through builder.NewVirtualBuildDirectory(InMemoryPrepopulatedDirectory).InstallHooks/UploadFile as the worker does - runs over an instrumented pool and a gated fake CAS: scripted races, seeded random histories, an exhaustive enumeration of short histories, and calls resuming on a released file (testing/synctest, one call per step, watchdog for spinning calls). TLC validates every line: number of Close() calls on the pool file vs. links+descriptors+frozen readers at every return and quiescent point, no touch of released storage, status of calls on released/live files, reported digest = digest (under the function the caller asked for) of the bytes the CAS received = a content the file had during the upload, stat digests = present contents, the contents of the pool file = the contents the callers put there (create size, writes, truncations, allocations, O_TRUNC accumulated from the call arguments; overlapping calls in any order) whenever no content-changing call is in progress, link counts, waits only while their condition holds.",
         explanation="lifetime/reference counting and upload consistency of pool_backed_file_allocator.go",
         exhaustive=True,
         extra={"drivers": meta},
